@@ -1,1 +1,100 @@
-From Verif Require Import Common.Base C01.Model.
+(* C01/Witness.v — non-vacuity examples (vm_compute) *)
+From Verif Require Import Common.Base C01.Model C01.Spec.
+
+Definition cfg10 := mkCfg 10 true.
+Definition cfg2 := mkCfg 2 true.
+
+(* a history with three deaths, two of them inside start-up recovery (the second one inside the
+   recovery that follows a death inside recovery); afterwards one id is queued, one dispatched,
+   one finished *)
+Definition h_ex : history :=
+  [ ([Offer 1; Offer 2; Offer 3; Read; Read; Complete 0 OOk], Some 7);   (* dies in the last op's neighbourhood *)
+    ([], Some 4);                                                       (* dies inside recovery *)
+    ([], Some 5);                                                       (* dies inside the next recovery *)
+    ([Read], None) ].
+
+Example h_ex_events :
+  accepted (snd (run_history cfg10 store0 h_ex)) = [1; 2; 3]%N /\
+  finals (snd (run_history cfg10 store0 h_ex)) = [1]%N.
+Proof. vm_compute. split; reflexivity. Qed.
+
+Example h_ex_durable : durable_or_finalb (fst (run_history cfg10 store0 h_ex)) (snd (run_history cfg10 store0 h_ex)) = true.
+Proof. vm_compute. reflexivity. Qed.
+
+(* the histories on which the code BEFORE the repair lost requests (old findings F1, F2 and the
+   missing read index) now keep everything durable *)
+Definition h_f1 (n : nat) : history :=
+  [ ([Offer 90; Read; Complete 0 OOk], None); ([Offer 1; Offer 2; Read; Read], None); ([], Some n) ].
+Definition h_f2 : history :=
+  [ ([Offer 90; Read; Complete 0 OOk], None); ([Offer 1; Read; Offer 2; Offer 3], None); ([], None) ].
+Definition h_cold : history := [ ([Offer 1; Offer 2], None); ([], None) ].
+
+Example old_witnesses_now_fine :
+  forallb (fun h => durable_or_finalb (fst (run_history cfg10 store0 h)) (snd (run_history cfg10 store0 h)))
+          [h_f1 3; h_f1 4; h_f1 5; h_f1 6; h_cold] = true /\
+  durable_or_finalb (fst (run_history cfg2 store0 h_f2)) (snd (run_history cfg2 store0 h_f2)) = true.
+Proof. vm_compute. split; reflexivity. Qed.
+
+(* the refused re-put is really reached by h_f2 (capacity 2): recovery reports errCount = 1 *)
+Example h_f2_refuses :
+  let st := fst (run_history cfg2 store0 [ ([Offer 90; Read; Complete 0 OOk], None); ([Offer 1; Read; Offer 2; Offer 3], None) ]) in
+  snd (run_act None st (initClient cfg2)) <> None /\
+  match snd (run_act None st (initClient cfg2)) with Some (_, errc) => errc = 1 | None => False end.
+Proof. vm_compute. split; [discriminate|reflexivity]. Qed.
+
+(* codec hypotheses are satisfiable with non-trivial values *)
+Example codec_ex :
+  bytesToItemIndexArray (Some (itemIndexArrayToBytes [7; 300; 18446744073709551615]%N)) = inl [7; 300; 18446744073709551615]%N.
+Proof. vm_compute. reflexivity. Qed.
+
+(* wf_store is satisfied by the empty store and by a used one *)
+Example wf_ex : wf_store store0 /\ wf_store (fst (run_history cfg10 store0 h_ex)).
+Proof.
+  split; unfold wf_store; vm_compute; (split; [discriminate|split; [auto; try discriminate|]]).
+  - intros i [].
+  - intros i H. repeat (destruct H as [<-|H]; [reflexivity|]). destruct H.
+Qed.
+
+(* hypotheses of pq_at_least_once / pq_drain_progress are satisfiable, and k > 1 is really needed:
+   capacity 2, request 1 in flight while 2 and 3 refill the queue; the first drain incarnation's
+   recovery cannot move 1 back (queue full), so 1 stays stored and listed; the second start moves
+   it; after three drains nothing is durable and every accepted request is final. *)
+Example fits_ex : fits cfg2 /\ fits cfg10 /\ fits (mkCfg 3 false).
+Proof.
+  repeat split; intros r; unfold sizeof, cfg2, cfg10; cbn [reqSized capacity]; try lia.
+  assert (r mod 3 < 3)%N by (apply N.mod_upper_bound; discriminate). lia.
+Qed.
+
+Definition h_refill : history :=
+  [ ([Offer 90; Read; Complete 0 OOk], None); ([Offer 1; Read; Offer 2; Offer 3], None) ].
+
+Definition all_final (c : cfg) (h : history) : bool :=
+  let e := snd (run_history c store0 h) in forallb (fun r => mem r (finals e)) (accepted e).
+Definition all_handed (c : cfg) (h : history) : bool :=
+  let e := snd (run_history c store0 h) in forallb (fun r => mem r (handoffs e)) (accepted e).
+
+Example refill_needs_more_than_one_drain :
+  pending (fst (run_history cfg2 store0 h_refill)) = 3%nat /\
+  di_of (fst (run_history cfg2 store0 h_refill)) = [1%N] /\
+  durableb (fst (run_history cfg2 store0 (h_refill ++ drains 3 1))) 1 = true /\
+  all_final cfg2 (h_refill ++ drains 3 1) = false /\
+  all_final cfg2 (h_refill ++ drains 3 3) = true /\
+  all_handed cfg2 (h_refill ++ drains 3 3) = true.
+Proof. vm_compute. repeat split; reflexivity. Qed.
+
+(* a history with deaths inside recovery followed by drains: everything accepted is handed off *)
+Example h_ex_delivered : all_handed cfg10 (h_ex ++ drains 6 4) = true.
+Proof. vm_compute. reflexivity. Qed.
+
+(* pq_fifo_single_incarnation / pq_indexes_monotone are unconditional; a non-trivial instance:
+   three reads in one incarnation hand out indexes 1, 2, 3 (index 0 was consumed before) *)
+Example fifo_ex :
+  read_idx (i_obs (incarnation cfg10 (fst (run_history cfg10 store0 [([Offer 90; Read; Complete 0 OOk], None)]))
+                               [Offer 1; Offer 2; Read; Offer 3; Read; Complete 1 OFailed; Read] None)) = [1; 2; 3]%N /\
+  eff (fst (run_history cfg10 store0 h_ex)) = (3, 8)%N.   (* deaths between re-put and cleanup duplicated in-flight requests *)
+Proof. vm_compute. split; reflexivity. Qed.
+
+(* hypothesis of pq_at_least_once_when_drained is reachable: after the three drains the store holds
+   no body at all, so nothing is durable *)
+Example drained_ex : s_items (fst (run_history cfg2 store0 (h_refill ++ drains 3 3))) = [].
+Proof. vm_compute. reflexivity. Qed.
